@@ -4,7 +4,7 @@ log=$1; shift
 : > $log
 for id in "$@"; do
   s=$(date +%s)
-  out=$(VERIF_EVIDENCE_DIR=/tmp/ev-thorough VERIF_REPLAY_DIR=/tmp/ev-thorough nice -n 15 /verif/bin/check $id --tier thorough 2>&1); rc=$?
+  out=$(VERIF_EVIDENCE_DIR=/verif/evidence/thorough VERIF_REPLAY_DIR=/tmp/ev-thorough /verif/bin/check $id --tier thorough 2>&1); rc=$?
   e=$(date +%s)
   echo "$id rc=$rc wall=$((e-s))s" >> $log
   echo "$out" | grep -E "^(C[0-9]+ (quick|thorough)|VIOLATION|violation|KNOWN-FINDING|HARNESS|stats)" | cut -c1-400 >> $log
